@@ -4,7 +4,7 @@
    map_cache_transparent), so the results are the same and - for a cache that never evicts - the user functions run
    once per DISTINCT (function, keyword arguments).
    Kept in its own module because Model/MapRun.v and Model/Pipe.v use the same field names. *)
-From Verif Require Export Corr.Run_C01.
+From Verif Require Export Corr.Run_C01 Model.MapRunCache.
 
 (* constructors with positional arguments (record syntax would clash with Model/Pipe.v in Run_C09 case files) *)
 Definition mkarr (n : str) (ax : list (option str)) : aspec := {| aname := n; axes := ax |}.
@@ -23,49 +23,24 @@ Record mcase := { m_req : Run_C01.case;
                   m_noevict : bool   (* the cache of the cached twin never evicts (SimpleCache, DiskCache without
                                         max_size): the number of executions is observed *) }.
 
-(* the keyword arguments of every invocation of f, given the state before f (mirrors MapRun.run_func) *)
-Definition calls_of_func (user : shape_dict) (st : run_state) (f : mfunc) : result (list str) :=
-  do shm <- func_shape user (r_shapes st) f;
-  do kw <- func_kwargs f (r_env st);
-  if is_mapped f then
-    match fspec f, shm with
-    | Some ms, Some (sh, mask) =>
-        let ext := ext_of mask sh in
-        mapM (fun i => do sel <- select_kwargs ms kw ext i; Ok (sym_app f sel)) (seq 0 (prod ext))
-    | _, _ => Err AssertionError
-    end
-  else Ok [sym_app f kw].
-
-Definition all_calls (c : Run_C01.case) : result (list str) :=
-  do r <- fold_left (fun acc f =>
-                       do a <- acc;
-                       do cs <- calls_of_func (c_internal c) (fst a) f;
-                       do st' <- run_func sym_body (c_internal c) (fst a) f;
-                       Ok (st', snd a ++ cs))
-                    (c_funcs c)
-                    (Ok ({| r_env := c_inputs c; r_shapes := init_shapes (c_inputs c); r_out := []; r_calls := 0 |}, []));
-  Ok (snd r).
-
-(* observation per run: [ uncached: ok [results; ncalls] | err ;  cached: ok results | err ;  executions with cache or -1 ] *)
-Definition results_of (o : sx) : sx :=
-  match o with
-  | SL [SS t; res; SI _] => SL [SS t; res]
-  | _ => o
+(* observation per run: [ uncached: ok [results; ncalls] | err ;  cached: ok results | err ;  executions with cache or -1 ]
+   The uncached twin is MapRun.map_run (Run_C01.run); the cached twin is MapRunCache.map_run_c with a dict as cache
+   (for caches that evict only the results are observed, and those do not depend on the policy: theorem
+   C09_map_run_cache_transparent). *)
+Definition cached_obs (r : result run_state) : sx :=
+  match r with
+  | Ok st => SL [SS (s "ok");
+                 SL (map (fun x => SL [SS (fst (fst x)); sx_val (snd (fst x)); sx_val (snd x)]) (r_out st))]
+  | Err e => SErr e
   end.
-(* `seen`: the invocations whose entries are resident (never-evicting cache) *)
-Definition run_one (noev : bool) (seen : list str) (c : Run_C01.case) : sx * list str :=
-  let u := Run_C01.run c in
-  match all_calls c with
-  | Ok cs =>
-      let fresh := filter (fun x => negb (mem_str x seen)) (dedup cs) in
-      (SL [u; results_of u; if noev then SN (length fresh) else SI (-1)], seen ++ fresh)
-  | Err _ => (SL [u; results_of u; SI (-1)], seen)
-  end.
+Definition run_one (noev : bool) (c0 : list (mkey * mval)) (c : Run_C01.case) : sx * list (mkey * mval) :=
+  let '(r, c1, x) := map_run_c sym_body map_simple (c_funcs c) (c_inputs c) (c_internal c) c0 in
+  (SL [Run_C01.run c; cached_obs r; if noev && is_ok r then SN x else SI (-1)], c1).
 Definition run (m : mcase) : sx :=
-  let '(o1, seen) := run_one (m_noevict m) [] (m_req m) in
+  let '(o1, c1) := run_one (m_noevict m) [] (m_req m) in
   match m_second m with
   | None => SL [o1]
-  | Some (r2, cleared) => SL [o1; fst (run_one (m_noevict m) (if cleared then [] else seen) r2)]
+  | Some (r2, cleared) => SL [o1; fst (run_one (m_noevict m) (if cleared then [] else c1) r2)]
   end.
 
 (* the statement: whenever the uncached run succeeds, the cached run returns the same results, and it never
